@@ -2,6 +2,10 @@
 # Apply every seeded change in turn, run the owning property's quick check, record what happened.
 cd /verif
 out=seeded/RESULTS.md
+# SHARD=i/n: only every n-th change, starting with the i-th (several shards may run side by side; tools/sweep_join.sh puts their tables together)
+si=${SHARD%/*}; sn=${SHARD#*/}; [ -n "$SHARD" ] && out=/tmp/sweep-part.$si.md
+xo=/tmp/expout${SHARD:+.$si}
+idx=-1
 # the checks run from a snapshot of /verif, so that edits made during the sweep do not change the build half-way
 snap=/tmp/sweepsnap.$$; rm -rf $snap; mkdir -p $snap; rsync -a --exclude .git --exclude evidence --exclude replays --exclude seeded --exclude findings /verif/ $snap/
 trap 'rm -rf $snap' EXIT
@@ -16,15 +20,16 @@ echo "|---|---|---|---|---|---|---|"
 for d in seeded/*/; do
   n=$(basename $d)
   [ -f $d/patch.diff ] || continue
+  idx=$((idx+1)); if [ -n "$SHARD" ] && [ $((idx % sn)) != "$si" ]; then continue; fi
   prop=$(python3 -c "import json;m=json.load(open('$d/meta.json'));print(m.get('check',m['property']))")
   own=$(python3 -c "import json;m=json.load(open('$d/meta.json'));print(m['property'])")
   W=/tmp/sweep.$$; git -C /repo worktree remove --force $W >/dev/null 2>&1; git -C /repo worktree add -q --detach $W HEAD
   if ! git -C $W apply /verif/$d/patch.diff 2>/dev/null; then echo "| $n | $own | $prop | - | patch does not apply | - | |"; git -C /repo worktree remove --force $W; continue; fi
-  o=$(VERIF_OUT=/tmp/expout VERIF_REPO=$W VERIF_MINIMISE=2s timeout 1500 $snap/check $prop quick 2>&1); rc=$?
+  o=$(VERIF_OUT=$xo VERIF_REPO=$W VERIF_MINIMISE=2s timeout 1500 $snap/check $prop quick 2>&1); rc=$?
   tier=quick
   if [ $rc = 0 ]; then
     # not met in the quick tier's 4000 runs: give the thorough tier two minutes (other seed)
-    o=$(VERIF_SEED=7 VERIF_BUDGET=120s VERIF_OUT=/tmp/expout VERIF_REPO=$W VERIF_MINIMISE=2s timeout 1500 $snap/check $prop thorough 2>&1); rc=$?
+    o=$(VERIF_SEED=7 VERIF_BUDGET=120s VERIF_OUT=$xo VERIF_REPO=$W VERIF_MINIMISE=2s timeout 1500 $snap/check $prop thorough 2>&1); rc=$?
     tier="thorough (120 s)"
   fi
   git -C /repo worktree remove --force $W >/dev/null 2>&1
@@ -35,4 +40,4 @@ for d in seeded/*/; do
 done
 } > $out.tmp
 mv $out.tmp $out
-cat $out
+[ -z "$SHARD" ] && cat $out
